@@ -423,7 +423,8 @@ func (loader *Loader) resolveComponent(doc *T, ref string, path *url.URL, resolv
 				}
 			}
 
-			if cursor == nil {
+			if v := reflect.ValueOf(cursor); cursor == nil || (v.Kind() == reflect.Ptr && v.IsNil()) {
+				// nothing there (an absent optional member is a nil pointer of its type)
 				return nil, failedToResolveRefFragmentPart(ref, pathPart)
 			}
 		}
